@@ -15,7 +15,8 @@ RULE = ("statm records of seven page counts (0 .. 2^52) x page size {real, 4096,
         "paths, anonymous, deleted files with the literal name present or absent), each with the ten figure lines in kernel order "
         "plus a per-case kernel profile of optional lines (KernelPageSize, Pss_Dirty, KSM, LazyFree, *Hugetlb, SwapPss, Locked, "
         "THPeligible, ProtectionKey, VmFlags), values up to 2^45 kB; the roll-up computed from the same list (or deliberately "
-        "inconsistent), present / ENOENT / ESRCH at open / ESRCH at read / EACCES, HAS_PROC_SMAPS_ROLLUP on/off; memory_percent for "
+        "kernel-rounded in Pss or inconsistent), old-kernel line sets (figures printed by no mapping), non-uniform line sets (model only), names with "
+        "newlines (shown as \\012), present / ENOENT / ESRCH at open / ESRCH at read / EACCES, HAS_PROC_SMAPS_ROLLUP on/off; memory_percent for "
         "every field name and unknown names with total memory cached or read; plus a malformed stream (dropped, duplicated, "
         "truncated, foreign lines, empty VmFlags, missing figures, file errors, zombie/gone). Non-trivial = at least one mapping "
         "or a non-empty file; distinct = distinct canonical case hash.")
@@ -25,8 +26,9 @@ TRUSTED = ["correspondence harness props/C13.py + pv/ (fake /proc tree; builtins
            "CPython re engine agrees with the three hand-written scanners of coq/C13/Model.v (exercised on adversarial lines)"]
 ASSUMPTIONS = ["CPython semantics of bytes.split/strip/startswith, str.strip, int, re.findall on the three patterns are modelled, not verified",
                "float arithmetic of memory_percent is compared with the exact ratio within 2^-48 relative",
-               "the kernel escapes newlines in mapped file names (\\012); names containing a raw newline are outside the grammar",
-               "a roll-up whose totals differ from the listing (real kernels round Pss up by < 1 kB per mapping) is compared with the model only"]
+               "a newline in a mapped file name is printed by the kernel as \\012 and returned so (the kernel's escaping is not injective: observation)",
+               "names begin with a non-blank byte (d_path output or pseudo-names); a leading ASCII blank is indistinguishable from the column padding",
+               "a roll-up that is neither the sum of the listing nor a kernel-rounded one (Pss off by >= number of mappings kB) is compared with the model only"]
 EXHAUSTIVE = {"quick": "memory_percent: all 10 field names and 12 unknown names on every generated percent base (files + total memory)",
               "thorough": "same, 12x the random cases"}
 
@@ -50,7 +52,8 @@ VALS = [0, 0, 4, 8, 12, 132, 2048, 2 ** 20, 2 ** 31, 2 ** 32 + 4, 2 ** 45, 10 **
 PATHS = [b"/usr/lib/x86_64-linux-gnu/libc.so.6", b"/usr/bin/python3.12", b"[heap]", b"[stack]", b"[vdso]", b"[anon:my name]",
          b"/tmp/a b/c d.so", b"/tmp/x:y:z", b"/dev/shm/foo", b"/memfd:jit", b"/tmp/Private_Dirty: 5 kB", b"/tmp/Pss: 7",
          b"/tmp/caf\xc3\xa9", b"/tmp/\xff\xfe", b"/SYSV00000000", b"anon_inode:[io_uring]", b"/tmp/tab\there", b"/tmp/a (deleted) b",
-         b"/tmp/x (deleted)", b"/tmp/two  blanks", b"/tmp/Swap:", b"/tmp/e\xe2\x80\x83m", b"/opt/VmFlags: rd", b"/a"]
+         b"/tmp/x (deleted)", b"/tmp/two  blanks", b"/tmp/Swap:", b"/tmp/e\xe2\x80\x83m", b"/opt/VmFlags: rd", b"/a",
+         b"/tmp/n\nl", b"/tmp/two\n\nlines\n", b"/tmp/back\\012slash", b"(unreachable)/x y"]
 EDGE_PATHS = [b"/tmp/trail ", b"/tmp/trail\t", b"/tmp/nbsp\xc2\xa0", b"/tmp/fs\x1c", b"/tmp/em\xe2\x80\x83", b"/tmp/nel\xc2\x85",
               b"/tmp/idsp\xe3\x80\x80", b"/tmp/two  ", b"/tmp/ogham\xe1\x9a\x80", b"/tmp/mmsp\xe2\x81\x9f", b"/tmp/ls\xe2\x80\xa8"]
 FLAGS = ["rd", "wr", "ex", "sh", "mr", "mw", "me", "ms", "gd", "pf", "dw", "lo", "io", "sr", "rr", "dc", "de", "ac", "nr", "ht", "sf", "nl", "ar", "wf", "dd", "sd", "mm", "hg", "nh", "mg", "um", "uw"]
@@ -74,6 +77,8 @@ def _lines(rng, profile, figs, per_mapping_jitter):
     out = []
     for name, kind, key in ORDER:
         if key is not None and not profile.get(key):
+            continue
+        if name in profile.get("drop", ()):
             continue
         if per_mapping_jitter and kind != "fig" and rng.random() < 0.25:
             continue
@@ -105,8 +110,13 @@ def _mapping(rng, profile, pool, jitter, addr):
             "deleted": deleted, "lines": _lines(rng, profile, figs, jitter)}, addr + size + rng.choice([0, 4096, 2 ** 30])
 
 
+def _kname(p):
+    """the kernel writes a newline in a name as \\012 (and escapes nothing else)"""
+    return p.replace(b"\n", b"\\012")
+
+
 def _shown(m):
-    p = bytes.fromhex(m["path"])
+    p = _kname(bytes.fromhex(m["path"]))
     return p + DELETED if m["deleted"] else p
 
 
@@ -120,9 +130,9 @@ def _ex_for(rng, ms, ambiguous):
         if m["deleted"]:
             if ambiguous and rng.random() < 0.5:
                 ex.add(_shown(m))
-        elif p.endswith(DELETED):
+        elif _shown(m).endswith(DELETED):
             if not (ambiguous and rng.random() < 0.5):
-                ex.add(p)
+                ex.add(_shown(m))
     # a file that exists must look the same for every mapping showing that name
     return sorted(_hexs(x) for x in ex)
 
@@ -130,6 +140,8 @@ def _ex_for(rng, ms, ambiguous):
 def _mappings(rng, n, edge=False):
     full_profile = rng.random() < 0.4     # a current kernel: every line present
     profile = {k: full_profile or rng.random() < 0.7 for k in PROFILE_KEYS}
+    if not full_profile and rng.random() < 0.2:     # an old kernel: these figures on no mapping
+        profile["drop"] = rng.sample(["Anonymous", "Swap", "Referenced", "Pss", "Shared_Dirty"], rng.randint(1, 3))
     pool = rng.sample(PATHS, rng.randint(1, 6))
     if edge:
         pool = pool[:2] + rng.sample(EDGE_PATHS, rng.randint(1, 3))
@@ -157,9 +169,12 @@ def _fig_of(m, name):
 
 
 def _rollup(rng, ms, consistent=True):
+    """consistent: True = sums of the listing; "rounded" = Pss as a real kernel rounds it (sum + 0..n-1); False = off"""
     tot = {n: sum(_fig_of(m, n) for m in ms) for n in FIGS}
-    if not consistent:
-        tot[rng.choice(["Pss", "Swap", "Private_Clean"])] += rng.choice([1, 7, 200])
+    if consistent == "rounded":
+        tot["Pss"] += rng.randint(0, max(0, len(ms) - 1))
+    elif not consistent:
+        tot[rng.choice(["Pss", "Swap", "Private_Clean"])] += rng.choice([len(ms) + 1, len(ms) + 7, 200])
     lines = []
     modern = rng.random() < 0.8
     dec = lambda name, pad: ["O", name, pad, str(rng.choice(DECOY)), True]
@@ -210,12 +225,12 @@ def _nmaps(rng):
 
 def _full_case(rng, kind="full"):
     ms = _mappings(rng, _nmaps(rng) if kind == "full" else rng.choice([0, 1, 1, 2]), edge=rng.random() < 0.1)
-    cons = rng.random() < 0.9
+    cons = rng.choice([True] * 6 + ["rounded"] * 3 + [False])
     c = {"kind": kind, "pagesize": _pagesize(rng), "has_rollup": rng.random() < 0.8, "rmode": rng.choice(RMODES + (["eacces"] if rng.random() < 0.2 else [])),
          "ex": _ex_for(rng, ms, False), "rollup": _rollup(rng, ms, cons), "ms": ms, "statm": _statm(rng)}
     src = "rollup" if (c["has_rollup"] and c["rmode"] == "ok") else ("denied" if c["has_rollup"] and c["rmode"] == "eacces" else
                                                                  ("fallback" if c["has_rollup"] else "smaps"))
-    c["cls"] = "%s-%s%s" % (kind, src, "" if cons or src != "rollup" else "-inconsistent") if ms else "trivial"
+    c["cls"] = "%s-%s%s" % (kind, src, "" if cons is True or src != "rollup" else "-rounded" if cons == "rounded" else "-inconsistent") if ms else "trivial"
     return c
 
 
@@ -230,7 +245,7 @@ def _text_line(l):
 def _text_block_lines(m):
     p = bytes.fromhex(m["path"])
     hdr = b" ".join(x.encode() for x in [m["addr"], m["perms"], m["offset"], m["dev"], m["inode"]])
-    hdr += (b" " + b" " * m["pad"] + _shown(m)) if p else b" "
+    hdr += (b" " + b" " * m["pad"] + _shown(m)) if p else b" "   # _shown: newline of a name as \012
     return [hdr] + [_text_line(l) for l in m["lines"]]
 
 
@@ -293,9 +308,15 @@ def gen_cases(rng, tier):
         edge = rng.random() < 0.12
         amb = rng.random() < 0.08
         ms = _mappings(rng, _nmaps(rng), edge=edge)
+        if len(ms) >= 2 and rng.random() < 0.06:
+            victim = rng.choice(ms[1:])
+            figs = [l for l in victim["lines"] if l[0] == "F" and l[1] != "Private_Hugetlb"]
+            if len(figs) > 1:
+                victim["lines"].remove(rng.choice(figs))
         c = {"kind": "maps", "ms": ms, "ex": _ex_for(rng, ms, amb)}
         paths = [m["path"] for m in ms]
-        c["cls"] = "trivial" if not ms else ("maps-identical-rows" if _twin_class(ms) else "maps-edge-blank" if _edge_class(c) else "maps-ambiguous-deleted" if amb else
+        c["cls"] = "trivial" if not ms else ("maps-nonuniform-lines" if not _uniform(ms) else "maps-newline-name" if any(b"\n" in bytes.fromhex(m["path"]) for m in ms) else
+                                             "maps-old-kernel" if any(_missing(m) for m in ms) else "maps-identical-rows" if _twin_class(ms) else "maps-edge-blank" if _edge_class(c) else "maps-ambiguous-deleted" if amb else
                                              "maps-repeated-paths" if len(set(paths)) < len(paths) else "maps")
         cases.append(c)
     # ---- malformed smaps / errors (model only)
@@ -345,6 +366,18 @@ def gen_cases(rng, tier):
     return cases
 
 
+def _figset(m):
+    return frozenset(l[1] for l in m["lines"] if l[0] == "F" and l[1] in ROW_FIGS)
+
+
+def _uniform(ms):
+    return len({_figset(m) for m in ms}) <= 1
+
+
+def _missing(m):
+    return len(_figset(m)) < len(ROW_FIGS)
+
+
 def _twin_class(ms):
     seen = set()
     for m in ms:
@@ -362,6 +395,34 @@ def _py_edge_blank(p):
 
 def _edge_class(case):
     return any(m["path"] and _py_edge_blank(_shown(m)) for m in case.get("ms", []))
+
+
+# ------------------------------------------------------------------ generated tables
+def gen_tables(impl_dir, out_dir):
+    """Dump the record layouts of the CURRENT source (psutil._pslinux namedtuples) as Gallina
+    literals into coq/Gen/C13_Tables.v; Properties/C13.v proves them equal to the documented
+    layouts, so a reordered / renamed field breaks a proof.  Fails closed when a table is gone."""
+    import subprocess
+    code = ("import json, psutil._pslinux as L; "
+            "print(json.dumps({n: list(getattr(L, n)._fields) for n in ('pmem', 'pfullmem', 'pmmap_grouped', 'pmmap_ext')}))")
+    env = dict(os.environ)
+    env["PYTHONPATH"] = impl_dir
+    env["PYTHONDONTWRITEBYTECODE"] = "1"
+    r = subprocess.run(["/venv/bin/python", "-c", code], env=env, cwd=impl_dir, stdout=subprocess.PIPE,
+                       stderr=subprocess.PIPE, text=True, timeout=120)
+    if r.returncode != 0:
+        raise RuntimeError("C13 gen_tables: cannot read the record layouts:\n" + r.stderr[-1500:])
+    t = json.loads(r.stdout)
+    out = ["(* GENERATED by props/C13.py (gen_tables) from psutil/_pslinux.py of the tree under check -- do not edit. *)",
+           "From PV Require Import Base.Bytes.", ""]
+    for n in ("pmem", "pfullmem", "pmmap_grouped", "pmmap_ext"):
+        out.append("Definition gen_%s_fields : list bytes :=\n  [%s]." % (n, ";\n   ".join('bs "%s"' % f for f in t[n])))
+    txt = "\n".join(out) + "\n"
+    path = os.path.join(out_dir, "C13_Tables.v")
+    os.makedirs(out_dir, exist_ok=True)
+    if not os.path.exists(path) or open(path).read() != txt:
+        with open(path, "w") as f:
+            f.write(txt)
 
 
 # ------------------------------------------------------------------ Coq terms
@@ -696,14 +757,18 @@ def impl_run(case, coq, env):
 
 
 MANIFEST = {
-    "text": "Theorems (Coq): for every statm record memory_info is the page counts times the page size in the documented field order; for every "
-            "kernel-formatted smaps listing (any number of mappings, any path bytes, optional lines) uss/pss/swap are the sums of the private/"
-            "proportional/swapped kB over all mappings x 1024, and a roll-up file consistent with the listing gives the same record, as does the "
-            "ENOENT/ESRCH fallback; memory_maps(grouped=False) is one row per mapping with its own address, permissions, path ('[anon]' if none, "
-            "' (deleted)' marker removed) and ten figures; the grouped view has one row per distinct path, each field the sum over that path's "
-            "mappings; memory_percent is 100*field/total for exactly the ten field names and ValueError otherwise. The path decoding used before commit "
-            "c15178c (str.strip of the name) is kept as clean_path_legacy and refuted by a witness. The model is tied to the code by running both on "
-            "generated kernel files and on a malformed stream through the public API over a fake /proc.",
+    "text": "Theorems (Coq, 25, no axioms): for every statm record memory_info is the seven page counts times the page size as pmem(rss, vms, shared, text, lib, "
+            "data, dirty); the four namedtuple layouts of the code (dumped into coq/Gen/C13_Tables.v on every run) are the documented ones used by model "
+            "and spec; for every kernel-formatted smaps listing (any number of mappings, any line set incl. all non-figure lines with arbitrary values, "
+            "any path bytes) uss/pss/swap are the sums of the private/proportional/swapped kB over all mappings x 1024; a roll-up whose lines are the "
+            "sums of the listing's lines gives the same record, as does the ENOENT/ESRCH fallback, and a kernel-rounded roll-up differs in pss only, by "
+            "less than one kB per mapping; memory_maps(grouped=False) is one row per mapping with its own address, permissions, path as the kernel "
+            "shows it ('[anon]' if none, ' (deleted)' marker removed, newline as \\012) and ten figures for every listing whose line set is the same "
+            "on every mapping (the never-cleared dict is refuted by a witness otherwise); the grouped view has one row per distinct path, each "
+            "field the sum over that path's mappings; memory_percent is 100*field/total for exactly the ten field names and ValueError for every "
+            "other name (attribute-like names included) whatever the process state. The path decoding used before commit c15178c is kept as "
+            "clean_path_legacy and refuted by a witness. The model is tied to the code by running both on generated kernel files and on a "
+            "malformed stream through the public API over a fake /proc.",
     "note": "Trusted: Coq kernel + vm_compute; hand-written model coq/C13/Model.v incl. the three regex scanners (tied by the correspondence run only); "
             "kernel formats in coq/C13/Spec.v; harness (fake /proc, builtins.open/os.stat patches, module constants set per case); CPython builtins "
             "and float division. Proof covers the model, sampling covers model-vs-code.",
